@@ -256,6 +256,7 @@ var c04Probes = []struct {
 	{"function-declaration-in-block-hoists", "function o() { { function f() {} } return f }"},
 	{"arrow-bare-parameter-uses", "var a; a => a"},
 	{"switch-discriminant-outside-case-scope", "let x; switch (x) { case 1: let x; x }"},
+	{"escaped-identifier-same-name", "var \\u0061 = 1; a"},
 }
 
 func c04Probe(t *fw.T) {
@@ -304,6 +305,7 @@ func c04Probe(t *fw.T) {
 		"function-declaration-in-block-hoists":       "function v1_() { { function v2_() {} } return v2_ }",
 		"arrow-bare-parameter-uses":                  "var v1_; (v2_) => { return v2_ }",
 		"switch-discriminant-outside-case-scope":     "let v1_; switch (v1_) { case 1: let v2_; v2_ }",
+		"escaped-identifier-same-name":               "var v1_ = 1; v1_",
 	}[p.name]
 	if canonNames(normalizeWS(got)) != canonNames(normalizeWS(want)) {
 		t.Failf("after renaming every declared variable the program prints as %q, want %q", got, want)
